@@ -708,11 +708,12 @@ bool ReadArrayFromTextStream(Array *array, Stream *stream) {
     if (!(*array)[index].UpdateFromTextStream(stream)) return false;
     ++index;
 
-    // If there is a trailing comma, discard it.
+    // If there is a trailing comma, discard it.  As between the fields of a
+    // struct, the comma is optional: multi-line output (see
+    // WriteArrayToTextStream) puts one element per line, without commas.
     if (!DiscardWhitespace(stream)) return false;
     if (!stream->Read(&c)) return false;
     if (c != ',') {
-      if (c != '}') return false;
       if (!stream->Unread(c)) return false;
     }
   }
